@@ -469,6 +469,16 @@ class IMAPClientCommand:
         Awaits the `ready` event. No matter what happens, we set the
         command to be completed before exiting.
         """
+        # A mailbox that has been deleted (or shut down) no longer has a
+        # management task: a command queued on it now would wait forever.
+        #
+        if mbox.deleted:
+            from .mbox import NoSuchMailbox
+
+            self.completed = True
+            raise NoSuchMailbox(
+                f"Mailbox '{mbox.name}' has been deleted or shutdown"
+            )
         try:
             mbox.task_queue.put_nowait(self)
             await self.ready.wait()
